@@ -266,63 +266,63 @@ fn range_case(sk: u8, ek: u8) {
     std::mem::forget(b);
 }
 
-// @ob props=C08,C07 tier=thorough cap=1500 mem=16 fns=Range::next,Cursor::seek,Cursor::next,Cursor::current,Bucket::range bound="root leaf page with 2 sorted symbolic 2-byte keys; three calls of next(); start bound included, end bound included, both bound keys symbolic" unwind=5
+// @ob props=C08 tier=thorough cap=1500 mem=16 fns=Range::next,Cursor::seek,Cursor::next,Cursor::current,Bucket::range bound="root leaf page with 2 sorted symbolic 2-byte keys; three calls of next(); start bound included, end bound included, both bound keys symbolic" unwind=5
 #[kani::proof]
 #[kani::unwind(5)]
 fn range_included_included() {
     range_case(0, 0);
 }
 
-// @ob props=C08,C07 tier=thorough cap=1500 mem=16 fns=Range::next,Cursor::seek,Cursor::next,Cursor::current,Bucket::range bound="root leaf page with 2 sorted symbolic 2-byte keys; three calls of next(); start bound included, end bound excluded, both bound keys symbolic" unwind=5
+// @ob props=C08 tier=thorough cap=1500 mem=16 fns=Range::next,Cursor::seek,Cursor::next,Cursor::current,Bucket::range bound="root leaf page with 2 sorted symbolic 2-byte keys; three calls of next(); start bound included, end bound excluded, both bound keys symbolic" unwind=5
 #[kani::proof]
 #[kani::unwind(5)]
 fn range_included_excluded() {
     range_case(0, 1);
 }
 
-// @ob props=C08,C07 tier=quick cap=800 mem=16 fns=Range::next,Cursor::seek,Cursor::next,Cursor::current,Bucket::range bound="root leaf page with 2 sorted symbolic 2-byte keys; three calls of next(); start bound included, end bound unbounded, both bound keys symbolic" unwind=5
+// @ob props=C08 tier=quick cap=800 mem=16 fns=Range::next,Cursor::seek,Cursor::next,Cursor::current,Bucket::range bound="root leaf page with 2 sorted symbolic 2-byte keys; three calls of next(); start bound included, end bound unbounded, both bound keys symbolic" unwind=5
 #[kani::proof]
 #[kani::unwind(5)]
 fn range_included_unbounded() {
     range_case(0, 2);
 }
 
-// @ob props=C08,C07 tier=quick cap=800 mem=16 fns=Range::next,Cursor::seek,Cursor::next,Cursor::current,Bucket::range bound="root leaf page with 2 sorted symbolic 2-byte keys; three calls of next(); start bound excluded, end bound included, both bound keys symbolic" unwind=5
+// @ob props=C08 tier=quick cap=800 mem=16 fns=Range::next,Cursor::seek,Cursor::next,Cursor::current,Bucket::range bound="root leaf page with 2 sorted symbolic 2-byte keys; three calls of next(); start bound excluded, end bound included, both bound keys symbolic" unwind=5
 #[kani::proof]
 #[kani::unwind(5)]
 fn range_excluded_included() {
     range_case(1, 0);
 }
 
-// @ob props=C08,C07 tier=thorough cap=1500 mem=16 fns=Range::next,Cursor::seek,Cursor::next,Cursor::current,Bucket::range bound="root leaf page with 2 sorted symbolic 2-byte keys; three calls of next(); start bound excluded, end bound excluded, both bound keys symbolic" unwind=5
+// @ob props=C08 tier=thorough cap=1500 mem=16 fns=Range::next,Cursor::seek,Cursor::next,Cursor::current,Bucket::range bound="root leaf page with 2 sorted symbolic 2-byte keys; three calls of next(); start bound excluded, end bound excluded, both bound keys symbolic" unwind=5
 #[kani::proof]
 #[kani::unwind(5)]
 fn range_excluded_excluded() {
     range_case(1, 1);
 }
 
-// @ob props=C08,C07 tier=thorough cap=1500 mem=16 fns=Range::next,Cursor::seek,Cursor::next,Cursor::current,Bucket::range bound="root leaf page with 2 sorted symbolic 2-byte keys; three calls of next(); start bound excluded, end bound unbounded, both bound keys symbolic" unwind=5
+// @ob props=C08 tier=thorough cap=1500 mem=16 fns=Range::next,Cursor::seek,Cursor::next,Cursor::current,Bucket::range bound="root leaf page with 2 sorted symbolic 2-byte keys; three calls of next(); start bound excluded, end bound unbounded, both bound keys symbolic" unwind=5
 #[kani::proof]
 #[kani::unwind(5)]
 fn range_excluded_unbounded() {
     range_case(1, 2);
 }
 
-// @ob props=C08,C07 tier=quick cap=400 fns=Range::next,Cursor::seek,Cursor::next,Cursor::current,Bucket::range bound="root leaf page with 2 sorted symbolic 2-byte keys; three calls of next(); start bound unbounded, end bound included, both bound keys symbolic" unwind=5
+// @ob props=C08 tier=quick cap=400 fns=Range::next,Cursor::seek,Cursor::next,Cursor::current,Bucket::range bound="root leaf page with 2 sorted symbolic 2-byte keys; three calls of next(); start bound unbounded, end bound included, both bound keys symbolic" unwind=5
 #[kani::proof]
 #[kani::unwind(5)]
 fn range_unbounded_included() {
     range_case(2, 0);
 }
 
-// @ob props=C08,C07 tier=quick cap=400 fns=Range::next,Cursor::seek,Cursor::next,Cursor::current,Bucket::range bound="root leaf page with 2 sorted symbolic 2-byte keys; three calls of next(); start bound unbounded, end bound excluded, both bound keys symbolic" unwind=5
+// @ob props=C08 tier=quick cap=400 fns=Range::next,Cursor::seek,Cursor::next,Cursor::current,Bucket::range bound="root leaf page with 2 sorted symbolic 2-byte keys; three calls of next(); start bound unbounded, end bound excluded, both bound keys symbolic" unwind=5
 #[kani::proof]
 #[kani::unwind(5)]
 fn range_unbounded_excluded() {
     range_case(2, 1);
 }
 
-// @ob props=C08,C07 tier=quick cap=400 fns=Range::next,Cursor::seek,Cursor::next,Cursor::current,Bucket::range bound="root leaf page with 2 sorted symbolic 2-byte keys; three calls of next(); start bound unbounded, end bound unbounded, both bound keys symbolic" unwind=5
+// @ob props=C08 tier=quick cap=400 fns=Range::next,Cursor::seek,Cursor::next,Cursor::current,Bucket::range bound="root leaf page with 2 sorted symbolic 2-byte keys; three calls of next(); start bound unbounded, end bound unbounded, both bound keys symbolic" unwind=5
 #[kani::proof]
 #[kani::unwind(5)]
 fn range_unbounded_unbounded() {
@@ -364,49 +364,49 @@ fn range_two_leaves_case(sk: u8, gap: bool, symbolic: bool) {
     std::mem::forget(r);
     std::mem::forget(b);
 }
-// @ob props=C08 tier=quick cap=600 mem=6 fns=Range::next,Cursor::seek,search,Cursor::next,Cursor::current,PageNode::index,PageNode::index_page bound="branch page over two leaf pages with 2 keys each, concrete keys (one execution, all checks on); start = Excluded(last key of the first leaf), end unbounded; four calls of next()" unwind=5
+// @ob props=C08 tier=quick cap=500 mem=5 fns=Range::next,Cursor::seek,search,Cursor::next,Cursor::current,PageNode::index,PageNode::index_page bound="branch page over two leaf pages with 2 keys each, concrete keys (one execution, all checks on); start = Excluded(last key of the first leaf), end unbounded; four calls of next()" unwind=5
 #[kani::proof]
 #[kani::unwind(5)]
 fn range_two_leaves_excluded_last_of_leaf() {
     range_two_leaves_case(1, false, false);
 }
-// @ob props=C08 tier=thorough cap=3000 mem=12 fns=Range::next,Cursor::seek,search,Cursor::next,Cursor::current,PageNode::index,PageNode::index_page bound="same tree with all 4 keys symbolic (ascending 2-byte keys); start = Excluded(last key of the first leaf), end unbounded; four calls of next()" unwind=5
+// @ob props=C08 tier=parked cap=3000 mem=12 fns=Range::next,Cursor::seek,search,Cursor::next,Cursor::current,PageNode::index,PageNode::index_page bound="same tree with all 4 keys symbolic (ascending 2-byte keys); start = Excluded(last key of the first leaf), end unbounded; four calls of next()" unwind=5
 #[kani::proof]
 #[kani::unwind(5)]
 fn range_two_leaves_excluded_last_of_leaf_sym() {
     range_two_leaves_case(1, false, true);
 }
-// @ob props=C08 tier=quick cap=600 mem=6 fns=Range::next,Cursor::seek,search,Cursor::next,Cursor::current,PageNode::index,PageNode::index_page bound="branch page over two leaf pages with 2 keys each, concrete keys (one execution, all checks on); start = Excluded(absent key in the gap between the leaves), end unbounded; four calls of next()" unwind=5
+// @ob props=C08 tier=parked cap=3000 mem=8 fns=Range::next,Cursor::seek,search,Cursor::next,Cursor::current,PageNode::index,PageNode::index_page bound="branch page over two leaf pages with 2 keys each, concrete keys (one execution, all checks on); start = Excluded(absent key in the gap between the leaves), end unbounded; four calls of next()" unwind=5
 #[kani::proof]
 #[kani::unwind(5)]
 fn range_two_leaves_excluded_gap() {
     range_two_leaves_case(1, true, false);
 }
-// @ob props=C08 tier=thorough cap=3000 mem=12 fns=Range::next,Cursor::seek,search,Cursor::next,Cursor::current,PageNode::index,PageNode::index_page bound="same tree with all 4 keys symbolic (ascending 2-byte keys) and the absent start key symbolic; start = Excluded(absent key in the gap between the leaves), end unbounded; four calls of next()" unwind=5
+// @ob props=C08 tier=parked cap=3000 mem=12 fns=Range::next,Cursor::seek,search,Cursor::next,Cursor::current,PageNode::index,PageNode::index_page bound="same tree with all 4 keys symbolic (ascending 2-byte keys) and the absent start key symbolic; start = Excluded(absent key in the gap between the leaves), end unbounded; four calls of next()" unwind=5
 #[kani::proof]
 #[kani::unwind(5)]
 fn range_two_leaves_excluded_gap_sym() {
     range_two_leaves_case(1, true, true);
 }
-// @ob props=C08 tier=quick cap=600 mem=6 fns=Range::next,Cursor::seek,search,Cursor::next,Cursor::current,PageNode::index,PageNode::index_page bound="branch page over two leaf pages with 2 keys each, concrete keys (one execution, all checks on); start = Included(last key of the first leaf), end unbounded; four calls of next()" unwind=5
+// @ob props=C08 tier=quick cap=500 mem=5 fns=Range::next,Cursor::seek,search,Cursor::next,Cursor::current,PageNode::index,PageNode::index_page bound="branch page over two leaf pages with 2 keys each, concrete keys (one execution, all checks on); start = Included(last key of the first leaf), end unbounded; four calls of next()" unwind=5
 #[kani::proof]
 #[kani::unwind(5)]
 fn range_two_leaves_included_last_of_leaf() {
     range_two_leaves_case(0, false, false);
 }
-// @ob props=C08 tier=thorough cap=3000 mem=12 fns=Range::next,Cursor::seek,search,Cursor::next,Cursor::current,PageNode::index,PageNode::index_page bound="same tree with all 4 keys symbolic (ascending 2-byte keys); start = Included(last key of the first leaf), end unbounded; four calls of next()" unwind=5
+// @ob props=C08 tier=parked cap=3000 mem=12 fns=Range::next,Cursor::seek,search,Cursor::next,Cursor::current,PageNode::index,PageNode::index_page bound="same tree with all 4 keys symbolic (ascending 2-byte keys); start = Included(last key of the first leaf), end unbounded; four calls of next()" unwind=5
 #[kani::proof]
 #[kani::unwind(5)]
 fn range_two_leaves_included_last_of_leaf_sym() {
     range_two_leaves_case(0, false, true);
 }
-// @ob props=C08 tier=quick cap=600 mem=6 fns=Range::next,Cursor::seek,search,Cursor::next,Cursor::current,PageNode::index,PageNode::index_page bound="branch page over two leaf pages with 2 keys each, concrete keys (one execution, all checks on); start = Included(absent key in the gap between the leaves), end unbounded; four calls of next()" unwind=5
+// @ob props=C08 tier=parked cap=3000 mem=8 fns=Range::next,Cursor::seek,search,Cursor::next,Cursor::current,PageNode::index,PageNode::index_page bound="branch page over two leaf pages with 2 keys each, concrete keys (one execution, all checks on); start = Included(absent key in the gap between the leaves), end unbounded; four calls of next()" unwind=5
 #[kani::proof]
 #[kani::unwind(5)]
 fn range_two_leaves_included_gap() {
     range_two_leaves_case(0, true, false);
 }
-// @ob props=C08 tier=thorough cap=3000 mem=12 fns=Range::next,Cursor::seek,search,Cursor::next,Cursor::current,PageNode::index,PageNode::index_page bound="same tree with all 4 keys symbolic (ascending 2-byte keys) and the absent start key symbolic; start = Included(absent key in the gap between the leaves), end unbounded; four calls of next()" unwind=5
+// @ob props=C08 tier=parked cap=3000 mem=12 fns=Range::next,Cursor::seek,search,Cursor::next,Cursor::current,PageNode::index,PageNode::index_page bound="same tree with all 4 keys symbolic (ascending 2-byte keys) and the absent start key symbolic; start = Included(absent key in the gap between the leaves), end unbounded; four calls of next()" unwind=5
 #[kani::proof]
 #[kani::unwind(5)]
 fn range_two_leaves_included_gap_sym() {
@@ -423,10 +423,30 @@ pub(crate) struct Ent<'a> {
 /// loop-free copy of at most 16 bytes (harness unwind bounds are spent on the code under test)
 unsafe fn put_bytes(dst: *mut u8, src: &[u8]) {
     assert!(src.len() <= 16);
+    if WORD_STORES {
+        // read-modify-write of the containing 64-bit word: with concrete bytes the page image stays a constant for
+        // CBMC's symbolic execution (a byte store into the word-typed image does not), so key comparisons in the
+        // code under test fold and a concrete scenario is ONE path
+        macro_rules! w {
+            ($($i:literal)*) => { $( if $i < src.len() {
+                let a = dst.add($i) as usize;
+                let wp = (a & !7usize) as *mut u64;
+                let sh = 8 * (a & 7) as u32;
+                *wp = (*wp & !(0xffu64 << sh)) | ((src[$i] as u64) << sh);
+            } )* };
+        }
+        w!(0 1 2 3 4 5 6 7 8 9 10 11 12 13 14 15);
+        return;
+    }
     macro_rules! b {
         ($($i:literal)*) => { $( if $i < src.len() { *dst.add($i) = src[$i]; } )* };
     }
     b!(0 1 2 3 4 5 6 7 8 9 10 11 12 13 14 15);
+}
+/// see put_bytes; set by concrete-scenario harnesses before they lay their pages
+pub(crate) static mut WORD_STORES: bool = false;
+pub(crate) fn word_stores(on: bool) {
+    unsafe { WORD_STORES = on }
 }
 
 /// write a leaf page at `page_id` of TREE: header, element headers, then packed keys / values
@@ -514,7 +534,7 @@ fn scan_expect(b: &Bucket, exp: &[[u8; 2]]) {
     std::mem::forget(c);
 }
 
-// @ob props=C07,C01 tier=parked cap=1200 mem=8 fns=Cursor::next,Cursor::seek_first,Cursor::current,InnerBucket::page_node,InnerBucket::put,InnerBucket::node,PageNode::val,PageNode::len bound="concrete scenario (one execution): leaf {10,30}; put 20 (new); full scan" unwind=6
+// @ob props=C07 tier=quick cap=400 mem=4 fns=Cursor::next,Cursor::seek_first,Cursor::current,InnerBucket::page_node,InnerBucket::put,InnerBucket::node,PageNode::val,PageNode::len bound="concrete scenario (one execution): leaf {10,30}; put 20 (new); full scan" unwind=6
 #[kani::proof]
 #[kani::unwind(6)]
 fn cursor_scan_after_put_new_concrete() {
@@ -528,7 +548,7 @@ fn cursor_scan_after_put_new_concrete() {
     std::mem::forget(b);
 }
 
-// @ob props=C07,C01 tier=parked cap=1200 mem=8 fns=Cursor::next,Cursor::current,InnerBucket::page_node,InnerBucket::put,InnerBucket::get bound="concrete scenario (one execution): leaf {10,30}; put over 30; full scan and lookup" unwind=6
+// @ob props=C07 tier=quick cap=400 mem=4 fns=Cursor::next,Cursor::current,InnerBucket::page_node,InnerBucket::put,InnerBucket::get bound="concrete scenario (one execution): leaf {10,30}; put over 30; full scan and lookup" unwind=6
 #[kani::proof]
 #[kani::unwind(6)]
 fn cursor_scan_after_overwrite_concrete() {
@@ -573,7 +593,7 @@ fn cursor_scan_after_deletes_concrete() {
 }
 
 // ---- C07: two leaves under a branch; the transaction empties the FIRST leaf, the scan must still deliver the second
-// @ob props=C07 tier=parked cap=3000 mem=10 fns=Cursor::next,Cursor::on_empty_leaf,Cursor::seek_first,Cursor::current,InnerBucket::page_node,InnerBucket::delete,InnerBucket::node,PageNode::val bound="concrete scenario (one execution): branch over leaves {10,20} and {30,40}; both keys of the first leaf deleted; then a full scan and a seek" unwind=6
+// @ob props=C07 tier=quick cap=600 mem=6 fns=Cursor::next,Cursor::on_empty_leaf,Cursor::seek_first,Cursor::current,InnerBucket::page_node,InnerBucket::delete,InnerBucket::node,PageNode::val bound="concrete scenario (one execution): branch over leaves {10,20} and {30,40}; both keys of the first leaf deleted; then a full scan and a seek" unwind=6
 #[kani::proof]
 #[kani::unwind(6)]
 fn cursor_scan_after_emptying_first_leaf() {
@@ -599,7 +619,7 @@ fn cursor_scan_after_emptying_first_leaf() {
 }
 
 // ---- C07: two leaves; put into the second leaf, the scan crosses from an untouched page into a materialised node
-// @ob props=C07,C08 tier=parked cap=3000 mem=10 fns=Cursor::next,Cursor::seek_first,Cursor::current,InnerBucket::page_node,InnerBucket::put,InnerBucket::node,Node::insert_child bound="concrete scenario (one execution): branch over leaves {10,20} and {30,40}; put 35; full scan; lookups in both leaves" unwind=6
+// @ob props=C07 tier=quick cap=700 mem=6 fns=Cursor::next,Cursor::seek_first,Cursor::current,InnerBucket::page_node,InnerBucket::put,InnerBucket::node,Node::insert_child bound="concrete scenario (one execution): branch over leaves {10,20} and {30,40}; put 35; full scan; lookups in both leaves" unwind=6
 #[kani::proof]
 #[kani::unwind(6)]
 fn cursor_scan_mixed_page_and_node() {
